@@ -615,7 +615,17 @@ def exec_step(w, rec, i):
         # the product oracle knows the exact expectation: judge before the envelope may discard
         w.stats["chk.I_prod"] += guarded(lambda: _prod_post(w, rec, prod_pre, touched[0], where), touched)
     for s in touched:
-        guarded(lambda: ref.envelope(s.obj, s.kind), [s])
+        if rec["op"] == "affine" and w.slots[rec["a"]].cls in APPROX:
+            # moment-matched results: covariance = E[yy'] - mu mu' can lose definiteness by cancellation for
+            # extreme inputs; such results are outside the envelope (discarded), not judged
+            try:
+                ref.envelope(s.obj, s.kind)
+            except Violation as v:
+                if v.check.startswith("I_env."):
+                    raise IllConditioned(v.check)
+                raise
+        else:
+            guarded(lambda: ref.envelope(s.obj, s.kind), [s])
 
     for sid, sn in snaps.items():
         w.stats["chk.I_imm"] += guarded(lambda: ref.I_imm(w.slots[sid].obj, sn, where=where + (f" operand {sid}" if sid in ops else f" bystander {sid}")), [w.slots[sid]])
